@@ -21,9 +21,11 @@ DEFAULT = {
     "T": [1, 2, 3],
     "p_h": 0.6,            # discrete state h
     "p_h_stoch": 0.6,      # ... with a stochastic transition
-    "p_e": 0.0,            # second stochastic discrete state e (3 labels)
+    "p_e": 0.15,           # second stochastic discrete state e (3 labels)
     "p_r": 0.6,            # filter-restricted discrete state r (+ filtered choice a)
     "p_per_filter": 0.5,   # filter depends on the period (admitted states vary)
+    "p_q": 0.3,            # second filter-restricted state q
+    "p_b_in_filter": 0.3,  # the filter also restricts the discrete choice b
     "p_state_filter": 0.2, # additional filter on the state r alone
     "p_b": 0.5,            # unfiltered discrete choice b
     "p_a": 0.8,            # discrete choice a (filtered if r is present)
@@ -94,6 +96,7 @@ def _rand_model_once(rng, P):  # noqa: C901, PLR0912, PLR0915
     h_stoch = has_h and has("p_h_stoch")
     has_e = has("p_e")
     has_r = has("p_r")
+    has_q = has_r and has("p_q")
     has_a = has("p_a") or has_r
     has_b = has("p_b")
     has_c = has("p_c") and has_w
@@ -127,6 +130,8 @@ def _rand_model_once(rng, P):  # noqa: C901, PLR0912, PLR0915
             vars_.append(mkvar("w", "state", "lin", nw, 0, sw * (nw - 1)))
     if has_r:
         vars_.append(mkvar("r", "state", "disc", nr))
+    if has_q:
+        vars_.append(mkvar("q", "state", "disc", 2))
     if has_z:
         vars_.append(mkvar("z", "state", "lin", 3, -1, 1))
     if has_e:
@@ -157,46 +162,65 @@ def _rand_model_once(rng, P):  # noqa: C901, PLR0912, PLR0915
         params["beta"] = q(rng.choice([F(9, 10), F(19, 20), F(2, 3)]))
     ci = lambda lo=-3, hi=3: const(rng.randint(lo, hi))  # noqa: E731
 
-    # ------------------------------------------------------------------ filters (r, a)
+    # ------------------------------------------------------------------ filters over (r[, q], a[, b])
     admitted = None
     if has_r:
+        import itertools
+
         per_filter = T > 1 and has("p_per_filter")
         feat["F6"] = True
         feat["F15"] = per_filter
-        admitted = []
-        masks = []
+        fstates = ["r"] + (["q"] if has_q else [])
+        fchoices = ["a"] + (["b"] if (has_b and has("p_b_in_filter")) else [])
+        feat["two_restricted_states"] = has_q
+        feat["two_restricted_choices"] = len(fchoices) == 2
+        size = {"r": nr, "q": 2, "a": na, "b": nb}
+        scombos = list(itertools.product(*[range(size[n]) for n in fstates]))
+        ccombos = list(itertools.product(*[range(size[n]) for n in fchoices]))
+        admitted = []      # per period: admitted combinations of the restricted states (tuples in the order of fstates)
+        passing = []       # per period: set of (state combo, choice combo) that pass
         for t in range(T):
             if t == 0 or per_filter:
                 while True:
-                    adm = [r for r in range(nr) if rng.random() < 0.7 or P["all_admitted"]]
+                    adm = [sc for sc in scombos if rng.random() < 0.7 or P["all_admitted"]]
                     if adm:
                         break
-                mk = [[(r in adm) and rng.random() < 0.6 for _ in range(na)] for r in range(nr)]
-                for r in adm:
-                    if not any(mk[r]):
-                        mk[r][rng.randrange(na)] = True
+                ps = {(sc, cc) for sc in adm for cc in ccombos if rng.random() < 0.6}
+                for sc in adm:
+                    if not any((sc, cc) in ps for cc in ccombos):
+                        ps.add((sc, rng.choice(ccombos)))
             admitted.append(adm)
-            masks.append(mk)
+            passing.append(ps)
+        fvars = fstates + fchoices
+        dims = [size[n] for n in fvars]
+        ns_ = len(fstates)
+        mask_t = lambda t: _tab(rng, dims, fn=lambda idx: (tuple(idx[:ns_]), tuple(idx[ns_:])) in passing[t])  # noqa: E731
         if per_filter:
-            funcs.append(mkfunc("m_filter", "filter", _shuf(rng, ["r", "a", "_period"], P),
-                                ["tab", ["_period", "r", "a"], masks]))
+            funcs.append(mkfunc("m_filter", "filter", _shuf(rng, [*fvars, "_period"], P),
+                                ["tab", ["_period", *fvars], [mask_t(t) for t in range(T)]]))
         else:
-            funcs.append(mkfunc("m_filter", "filter", _shuf(rng, ["r", "a"], P), ["tab", ["r", "a"], masks[0]]))
+            funcs.append(mkfunc("m_filter", "filter", _shuf(rng, fvars, P), ["tab", fvars, mask_t(0)]))
         params["m_filter"] = {}
         if has("p_state_filter"):
-            # a redundant filter on the state alone (true on every admitted state)
-            keep = sorted(set().union(*admitted))
+            # a redundant filter on the state r alone (true on every admitted value of r)
+            keep = sorted({sc[0] for adm in admitted for sc in adm})
             funcs.append(mkfunc("s_filter", "filter", ["r"], ["tab", ["r"], [r in keep for r in range(nr)]]))
             params["s_filter"] = {}
-        # transition of r: a table into the admitted set of the next period
-        nxt = [[[q(rng.choice(admitted[min(t + 1, T - 1)])) for _ in range(na)] for _ in range(nr)] for t in range(T)]
-        if per_filter or has("p_period_next"):
-            funcs.append(mkfunc("next_r", "next", _shuf(rng, ["r", "a", "_period"], P), ["tab", ["_period", "r", "a"], nxt]))
-            feat["F14"] = True
-        else:
-            nx0 = [[q(rng.choice(admitted[0])) for _ in range(na)] for _ in range(nr)]
-            funcs.append(mkfunc("next_r", "next", _shuf(rng, ["r", "a"], P), ["tab", ["r", "a"], nx0]))
-        params["next_r"] = {}
+        # transitions of the restricted states: tables into the admitted combinations of the next period
+        period_next = per_filter or has("p_period_next")
+        tgt = {}
+        for t in range(T):
+            for idx in itertools.product(*[range(d) for d in dims]):
+                tgt[(t, idx)] = rng.choice(admitted[min(t + 1, T - 1)] if period_next else admitted[0])
+        for k, st in enumerate(fstates):
+            if period_next:
+                tab = [_tab(rng, dims, fn=lambda idx, t=t, k=k: tgt[(t, tuple(idx))][k]) for t in range(T)]
+                funcs.append(mkfunc(f"next_{st}", "next", _shuf(rng, [*fvars, "_period"], P), ["tab", ["_period", *fvars], tab]))
+                feat["F14"] = True
+            else:
+                funcs.append(mkfunc(f"next_{st}", "next", _shuf(rng, fvars, P),
+                                    ["tab", fvars, _tab(rng, dims, fn=lambda idx, k=k: tgt[(0, tuple(idx))][k])]))
+            params[f"next_{st}"] = {}
 
     # ------------------------------------------------------------------ utility
     uargs = []
@@ -381,7 +405,8 @@ def _rand_model_once(rng, P):  # noqa: C901, PLR0912, PLR0915
         "stoch": h_stoch or has_e, "has_r": has_r, "has_w": has_w,
     })
     return {"T": T, "vars": vars_, "funcs": funcs, "params": params,
-            "meta": {"feat": feat, "admitted": admitted, "inexact": bool(P["inexact"] or log_w)}}
+            "meta": {"feat": feat, "admitted": admitted, "fstates": (["r"] + (["q"] if has_q else [])) if has_r else [],
+                     "inexact": bool(P["inexact"] or log_w)}}
 
 
 def rand_row(rng, n, onehot=False):
@@ -426,14 +451,20 @@ def rand_initial_states(rng, m, n_agents, *, on_grid=False, off_range=True):
     nodes, inside cells and (linear grids) outside the range."""
     from .mdl import grid_values
 
-    adm = (m.get("meta") or {}).get("admitted")
+    meta = m.get("meta") or {}
+    adm = meta.get("admitted")
+    fstates = meta.get("fstates") or []
     out = {}
+    combos = [rng.choice(adm[0]) for _ in range(n_agents)] if adm else None
     for v in m["vars"]:
         if v["role"] != "state":
             continue
         if v["kind"] == "disc":
-            pool = adm[0] if (v["name"] == "r" and adm) else list(range(v["n"]))
-            out[v["name"]] = [rng.choice(pool) for _ in range(n_agents)]
+            if adm and v["name"] in fstates:
+                k = fstates.index(v["name"])
+                out[v["name"]] = [c[k] for c in combos]
+            else:
+                out[v["name"]] = [rng.randrange(v["n"]) for _ in range(n_agents)]
         else:
             g = grid_values(v)
             vals = []
@@ -450,3 +481,21 @@ def rand_initial_states(rng, m, n_agents, *, on_grid=False, off_range=True):
                 vals.append(x)
             out[v["name"]] = vals
     return out
+
+
+def twin(rng, m):
+    """A model with exactly the same names, signatures, declaration orders and parameters as m but other
+    function bodies (utility scaled and shifted, deterministic continuous transitions shifted): anything that
+    remembers compiled functions by *name* across models of one process is exposed when m and its twin are
+    run one after the other."""
+    import copy
+
+    mm = copy.deepcopy(m)
+    for f in mm["funcs"]:
+        if f["kind"] == "utility":
+            f["expr"] = add(mul(const(rng.choice([2, 3])), f["expr"]), const(rng.choice([1, -2, 5])))
+        elif f["kind"] == "next" and f["name"] in ("next_w", "next_z"):
+            f["expr"] = ["sub", f["expr"], const(F(1, 2))]
+        elif f["kind"] == "aux" and f["name"] == "inc":
+            f["expr"] = add(f["expr"], const(1))
+    return mm
